@@ -1099,15 +1099,19 @@ func readCandidatePort(raw string, start int) (int, int, error) {
 // As defined in RFC 4566  1*(%x01-09/%x0B-0C/%x0E-FF) ;any byte except NUL, CR, or LF
 // we imply that extensions byte-string are UTF-8 encoded.
 func readCandidateByteString(raw string, start int) (string, int, error) {
-	for i, char := range raw[start:] {
+	// A byte-string is made of bytes, not of runes: iterate over the bytes, so
+	// that multi-byte UTF-8 sequences and bytes that are not valid UTF-8 are
+	// judged by the byte ranges of the grammar.
+	for i := start; i < len(raw); i++ {
+		char := raw[i]
 		if char == 0x20 { // SP
-			return raw[start : start+i], start + i + 1, nil
+			return raw[start:i], i + 1, nil
 		}
 
 		// 1*(%x01-09/%x0B-0C/%x0E-FF)
 		if (char < 0x01 || char > 0x09) &&
 			(char < 0x0B || char > 0x0C) &&
-			(char < 0x0E || char > 0xFF) {
+			char < 0x0E {
 			return "", 0, fmt.Errorf("invalid byte-string character: %c", char) //nolint: err113 // handled by caller
 		}
 	}
